@@ -39,10 +39,10 @@ PROPS = {
         'assumptions': COMMON_ASSUME + ['OS-level behaviour appears only as: the source returned an error after k bytes / the destination accepted k bytes'],
     },
     'C09': {
-        'props': ['theories/Props/C09.v'], 'deps': READER_DEPS + ['theories/Theory/ReaderTotal.v', 'theories/Theory/ScanSpec.v'],
+        'props': ['theories/Props/C09.v'], 'deps': READER_DEPS + ['theories/Theory/ReaderTotal.v', 'theories/Theory/ScanSpec.v', 'theories/Theory/Segments.v'],
         'streams': ['l5-props', 'l4-reader'],
         'trusted_base': READER_TB,
-        'assumptions': COMMON_ASSUME + ['separator independence (none / LF / CRLF between segments) has no theorem: decided on the implementation by stream l5-props (every sample x separators) and by model/implementation agreement in l4-reader; chunk independence and order independence are theorems'],
+        'assumptions': COMMON_ASSUME + ['separator independence is proved for texts below the 64 KiB token limit whose segments hold no further brace and no line break (what the writer emits for FAIM values); doubled separators and texts with stray line breaks are decided on the implementation by stream l5-props'],
     },
     'C02': {
         'props': ['theories/Props/C02.v'], 'deps': READER_DEPS + CODEC_DEPS + ['theories/Theory/WriterFacts.v', 'theories/Model/Writer.v', 'gen/Writer.v'],
